@@ -97,6 +97,17 @@ func checkC11(c *Ctx) {
 				if x.Call.IsInvoke() && x.Call.Method.Name() == "SexpString" {
 					return true, "printer"
 				}
+				// decimal integer formatters write digits and a sign only: a JSON number for every argument
+				if g != nil && fnPkgPath(g) == "strconv" {
+					switch g.Name() {
+					case "Itoa":
+						return true, ""
+					case "FormatInt", "FormatUint":
+						if base, ok := constIntOf(x.Call.Args[len(x.Call.Args)-1]); ok && base == 10 {
+							return true, ""
+						}
+					}
+				}
 				if g != nil {
 					return false, "result of " + fnName(g) + " is spliced into the JSON text without quoting"
 				}
@@ -442,6 +453,7 @@ func checkC11(c *Ctx) {
 // checkJSONCompatiblePrinters: the printers of the scalar types in the
 // property's domain that fall through to SexpString produce JSON tokens.
 func (c *Ctx) checkJSONCompatiblePrinters() {
+	c.checkNumberPrintersPlain()
 	// SexpInt: strconv.Itoa; SexpBool: "true"/"false"; SexpFloat: FormatFloat ('e'/'f') — NaN and Inf are not JSON
 	type pr struct{ fn, want string }
 	for _, p := range []pr{{"SexpInt.SexpString", "Itoa"}, {"SexpFloat.SexpString", "FormatFloat"}} {
@@ -475,5 +487,72 @@ func (c *Ctx) checkJSONCompatiblePrinters() {
 			})
 		}
 		c.check(handles, "C11-ESC", "SexpToJson", "scalar non-finite float", f.Pos(), "NaN and Inf are treated specially", "NaN and ±Inf are written with the language printer (NaN, +Inf), which is not JSON: a value holding one cannot be decoded")
+	}
+}
+
+// checkNumberPrintersPlain: a number type that has no arm of its own in the
+// JSON encoder is written with its language printer. That is a JSON number
+// only if the printer returns what strconv produced and nothing else; a
+// printer that appends a type suffix (1ULL) does not. The number printers are
+// derived: every SexpString method that calls a strconv number formatter.
+func (c *Ctx) checkNumberPrintersPlain() {
+	enc := c.funcDecl("SexpToJson")
+	if enc == nil {
+		return
+	}
+	arms := map[string]bool{}
+	if ts := c.mainTypeSwitch(enc, "exp"); ts != nil {
+		for _, cl := range ts.Body.List {
+			for _, e := range cl.(*ast.CaseClause).List {
+				arms[exprShort(e)] = true
+			}
+		}
+	}
+	n := 0
+	for _, f := range c.zygoFuncs() {
+		if f.Parent() != nil || f.Name() != "SexpString" || f.Signature.Recv() == nil {
+			continue
+		}
+		formats := false
+		eachInstr(f, func(b *ssa.BasicBlock, i int, in ssa.Instruction) {
+			if call, ok := in.(*ssa.Call); ok {
+				if g := call.Call.StaticCallee(); g != nil && fnPkgPath(g) == "strconv" {
+					switch g.Name() {
+					case "Itoa", "FormatInt", "FormatUint", "FormatFloat":
+						formats = true
+					}
+				}
+			}
+		})
+		if !formats {
+			continue
+		}
+		recv := strings.SplitN(fnName(f), ".", 2)[0]
+		if arms["*"+recv] {
+			continue // the encoder writes this type itself
+		}
+		n++
+		suffix := ""
+		eachInstr(f, func(b *ssa.BasicBlock, i int, in ssa.Instruction) {
+			bo, ok := in.(*ssa.BinOp)
+			if !ok || bo.Op != token.ADD {
+				return
+			}
+			for _, v := range []ssa.Value{bo.X, bo.Y} {
+				if k, ok := v.(*ssa.Const); ok && k.Value != nil && k.Value.Kind() == constant.String {
+					for _, r := range constant.StringVal(k.Value) {
+						if (r >= 'a' && r <= 'z') || (r >= 'A' && r <= 'Z') {
+							suffix = constant.StringVal(k.Value)
+						}
+					}
+				}
+			}
+		})
+		c.check(suffix == "", "C11-ESC", fnName(f), "number printer used by the JSON encoder adds no letters", f.Pos(),
+			"this number type has no arm in SexpToJson and its printer returns the formatted digits without a letter suffix",
+			fmt.Sprintf("values of type %s have no arm in SexpToJson and are written with the language printer, which appends %q: the output is not a JSON number ((json [1ULL]) gives [1ULL])", recv, suffix))
+	}
+	if n == 0 {
+		c.undecided("C11-ESC", "SexpToJson", "number printers", enc.Pos(), "no number printer falls through to the encoder's default arm")
 	}
 }
